@@ -80,6 +80,12 @@ Theorem footrule_bound : forall o1 o2 : list N, NoDup o1 -> Permutation o1 o2 ->
 Proof. exact Proofs.Distances.footrule_bound. Qed.
 Print Assumptions footrule_bound.
 
+(* ... and floor(n^2 / 2) is exactly the largest possible numerator: the reversed ranking attains it *)
+Theorem footrule_bound_tight : forall o : list N, NoDup o ->
+  footrule_num o (rev o) = (length o * length o) / 2.
+Proof. exact Proofs.Distances.footrule_bound_tight. Qed.
+Print Assumptions footrule_bound_tight.
+
 (* the value num/den lies in [0, 1] *)
 Theorem footrule_range : forall o1 o2 : list N, NoDup o1 -> Permutation o1 o2 -> 2 <= length o1 ->
   exists num den, spearman_footrule o1 o2 = Ok (num, den) /\ 0 < den /\ num <= den.
